@@ -18,23 +18,23 @@ template<typename NodeT>
 class ArenaTreeNodeT {
 public:
   ASMJIT_NONCOPYABLE(ArenaTreeNodeT)
-  // Two named links instead of an array, read and written only through the non-inlined accessors below: a link chosen
-  // by a symbolic index / address inside a block would again be untyped pointer arithmetic for the solver (clang -O1
-  // turns `c ? n->right : n->left` into one load from a selected address unless the two loads are separate calls).
-  NodeT* _tree_left {};
-  NodeT* _tree_right {};
+  // Typed links under the name and shape of the real header ([0] = left, [1] = right; the allocator itself only zeroes
+  // them), read and written with CONSTANT indices through the non-inlined accessors below: a link chosen by a symbolic
+  // index / address inside a block would again be untyped pointer arithmetic for the solver (clang -O1 turns
+  // `c ? n->right : n->left` into one load from a selected address unless the two loads are separate calls).
+  NodeT* _tree_nodes[2] {};
   ASMJIT_INLINE_NODEBUG ArenaTreeNodeT() noexcept {}
-  ASMJIT_INLINE_NODEBUG bool has_left() const noexcept { return _tree_left != nullptr; }
-  ASMJIT_INLINE_NODEBUG bool has_right() const noexcept { return _tree_right != nullptr; }
-  ASMJIT_INLINE_NODEBUG NodeT* left() const noexcept { return _tree_left; }
-  ASMJIT_INLINE_NODEBUG NodeT* right() const noexcept { return _tree_right; }
+  ASMJIT_INLINE_NODEBUG bool has_left() const noexcept { return _tree_nodes[0] != nullptr; }
+  ASMJIT_INLINE_NODEBUG bool has_right() const noexcept { return _tree_nodes[1] != nullptr; }
+  ASMJIT_INLINE_NODEBUG NodeT* left() const noexcept { return _tree_nodes[0]; }
+  ASMJIT_INLINE_NODEBUG NodeT* right() const noexcept { return _tree_nodes[1]; }
 };
 
 namespace TreeModel {
-template<typename NodeT> __attribute__((noinline)) static NodeT* get_left(const NodeT* n) noexcept { return n->_tree_left; }
-template<typename NodeT> __attribute__((noinline)) static NodeT* get_right(const NodeT* n) noexcept { return n->_tree_right; }
-template<typename NodeT> __attribute__((noinline)) static void set_left(NodeT* n, NodeT* c) noexcept { n->_tree_left = c; }
-template<typename NodeT> __attribute__((noinline)) static void set_right(NodeT* n, NodeT* c) noexcept { n->_tree_right = c; }
+template<typename NodeT> __attribute__((noinline)) static NodeT* get_left(const NodeT* n) noexcept { return n->_tree_nodes[0]; }
+template<typename NodeT> __attribute__((noinline)) static NodeT* get_right(const NodeT* n) noexcept { return n->_tree_nodes[1]; }
+template<typename NodeT> __attribute__((noinline)) static void set_left(NodeT* n, NodeT* c) noexcept { n->_tree_nodes[0] = c; }
+template<typename NodeT> __attribute__((noinline)) static void set_right(NodeT* n, NodeT* c) noexcept { n->_tree_nodes[1] = c; }
 template<typename NodeT> static inline NodeT* child(const NodeT* n, bool right_side) noexcept { if (right_side) return get_right(n); return get_left(n); }
 template<typename NodeT> static inline void set_child(NodeT* n, bool right_side, NodeT* c) noexcept { if (right_side) set_right(n, c); else set_left(n, c); }
 }
